@@ -18,7 +18,8 @@ class Call2Mixin:
     # special forms in specs
     if isinstance(node.func, ast.Name):
       sf = getattr(self, 'sf_' + node.func.id, None)
-      if sf is not None and (self.spec_mode or node.func.id in ('isinstance', 'hasattr', 'super')):
+      if sf is not None and (self.spec_mode or node.func.id in ('isinstance', 'hasattr', 'super')) and not (
+          node.func.id in env):
         return sf(node, env)
     # logging.* calls are dropped (no effect on state)
     if isinstance(node.func, ast.Attribute) and isinstance(node.func.value, ast.Name) \
@@ -176,6 +177,30 @@ class Call2Mixin:
         if not self.spec_mode and self.branch(self.fresh_bool(f'{c.short}.raises.{exc}')):
           self.raise_(exc, VStr(f'{c.short} may raise {exc}'))
       self.assume(ct)                   # a normal return implies the condition
+    # exceptional exits described by raises_ensures: the call may raise exc; then its exceptional
+    # postconditions hold for the (havocked) state
+    if not self.spec_mode:
+      for exc, posts in c.raises_ensures.items():
+        if exc in c.raises:
+          continue
+        if self.branch(self.fresh_bool(f'{c.short}.raises.{exc}')):
+          for path in c.modifies:
+            self.havoc_path(env, path)
+          if exc == 'UserError':
+            ev_ = VExc('UserError', [], sym=self.fresh_obj(f'{c.short}.exc'))
+          else:
+            ev_ = VExc(exc, [])
+            n_ = self.fresh_int('nargs')
+            self.assume(n_ >= 0)
+            ev_.args = VSeq(z3.Array(self.path.fresh_name('excargs'), z3.IntSort(), Obj), n_, 'obj')
+          env3 = dict(env)
+          env3['raised'] = ev_
+          for e in posts:
+            if _internal(e, c):
+              continue
+            self.path.ctx = f'assumed exceptional postcondition [{exc}] of {c.short}: {e}'
+            self.assume(self.spec(e, env3, old))
+          raise PyRaise(ev_)
     # frame: havoc what the callee may modify
     for path in c.modifies:
       self.havoc_path(env, path)
@@ -186,10 +211,19 @@ class Call2Mixin:
       res = c.post_hook(self, env2, old) or res
       env2['result'] = res
     for e in c.ensures:
+      if _internal(e, c):
+        continue
+      self.path.ctx = f'assumed postcondition of {c.short}: {e}'
       self.assume(self.spec(e, env2, old))
+    self.call_log.append((c.short, res))
     return res
 
   def havoc_path(self, env, path):
+    if path.startswith('events:'):        # the callee may notify waiters of this condition
+      lk = self.spec_val(path[7:], env)
+      lk.f_notify = z3.Or(lk.f_notify, self.fresh_bool(f'{lk.name}.notified'))
+      lk.f_notify_all = z3.Or(lk.f_notify_all, z3.And(lk.f_notify, self.fresh_bool(f'{lk.name}.notified_all')))
+      return
     if path.startswith('lock:'):
       lk = self.spec_val(path[5:], env)
       self.ghost[f'{lk.name}.free'] = VBool(self.fresh_bool(f'{lk.name}.free'))
@@ -203,7 +237,7 @@ class Call2Mixin:
       return
     v = self.unopt(v)
     cur = self.getfield(v, parts[-1])
-    if isinstance(cur, (VMList, VIter, VMap)):
+    if isinstance(cur, (VMList, VIter, VMap, VQueue)):
       self.havoc_in_place(cur, path)
     else:
       v.f[parts[-1]] = self.fresh_like(cur, path)
@@ -238,6 +272,8 @@ class Call2Mixin:
       o = VTuple([self.clone(x, memo) for x in v.items])
     elif isinstance(v, VDict):
       o = VDict({k: self.clone(x, memo) for k, x in v.d.items()})
+    elif isinstance(v, VQueue):
+      o = VQueue(self.clone(v.q, memo), v.cap, v.name)
     elif isinstance(v, VOpt):
       o = VOpt(v.isnone, self.clone(v.val, memo))
     elif isinstance(v, VIter):
@@ -251,6 +287,7 @@ class Call2Mixin:
       o = VLock(v.name, v.reentrant, v.cond)
       o.held = v.held
       o.events = list(v.events)
+      o.f_notify, o.f_notify_all = v.f_notify, v.f_notify_all
     else:
       return v
     memo[id(v)] = o
@@ -263,7 +300,8 @@ class Call2Mixin:
       if name in EXC_PARENT:
         if len(args) == 1 and isinstance(args[0], tuple) and args[0][0] == '*':
           e = VExc(name, [])
-          e.args = args[0][1]           # symbolic-length args (StopIteration(*returned))
+          sv = args[0][1]
+          e.args = sv.seq if isinstance(sv, VMList) else sv      # symbolic-length args (StopIteration(*returned))
           return e
         return VExc(name, list(args))
       return self.builtin_class(name, args, kwargs)
@@ -414,6 +452,29 @@ class Call2Mixin:
     b = self.truth(self.ev(node.args[1], env))
     return VBool(z3.Implies(a, b))
 
+  def sf_is_stop(self, node, env):
+    v = self.ev(node.args[0], env)
+    v = v.val if isinstance(v, VOpt) else v
+    from .calls import is_stop_fn
+    if isinstance(v, VExc) and v.sym is not None and v.cls == 'UserError':
+      return VBool(is_stop_fn(v.sym))
+    return VBool(isinstance(v, VExc) and exc_isinstance(v.cls, 'StopIteration'))
+
+  def sf_ncalls(self, node, env):
+    name = self.ev(node.args[0], env).s
+    return VInt(sum(1 for n, _ in self.call_log if n.endswith(name)))
+
+  def sf_last_result(self, node, env):
+    name = self.ev(node.args[0], env).s
+    for n, r in reversed(self.call_log):
+      if n.endswith(name):
+        return r
+    raise Unsupported(f'no call of {name} on this path')
+
+  def sf_timed_out(self, node, env):
+    g = self.ghost.get('__timed_out__')
+    return g if g is not None else VBool(False)
+
   def sf_truthy(self, node, env):
     return VBool(self.truth(self.ev(node.args[0], env)))
 
@@ -494,7 +555,7 @@ class Call2Mixin:
       r = h(self, v, cname)
       if r is not None:
         return r
-    if isinstance(v, (VNoneT, VInt, VBool, VReal, VStr, VTuple, VList)):
+    if isinstance(v, (VNoneT, VInt, VBool, VReal, VStr, VTuple, VList, VIter, VSeq, VMList)):
       return z3.BoolVal(False)
     raise Unsupported(f'isinstance({type(v).__name__}, {cname})')
 
@@ -536,6 +597,19 @@ class Call2Mixin:
     if slf is None or cn is None:
       raise Unsupported('super() outside method')
     return VSuper(slf, cn)
+
+
+def _internal(clause, c=None):
+  import re as _re
+  if c is not None and any(_re.search(r'\b' + g + r'\b', clause) for g in c.ghost):
+    return True
+  return _internal0(clause)
+
+
+def _internal0(clause):
+  """Clauses about the callee's own execution trace (ghost call counters, time-out flag) are proved
+  for the callee but are not facts about the caller's state: they are not assumed at call sites."""
+  return any(tok in clause for tok in ('ncalls(', 'timed_out(', 'last_result('))
 
 
 def _walk_fn(node):
